@@ -106,6 +106,12 @@ pub fn run_case(case: &Case) -> (Vec<(String, String)>, Info) {
     let mut d = Deliverer::new(Node::new(case.hist.ncfg, 6), 10_000);
     let mut reorgs = 0;
     for b in &built.blocks {
+        if is_rootless(&d.node, &table, b) {
+            // a branch whose fork point has been purged goes through add_block's out-of-order branch
+            // (open finding F10); what the node does afterwards is that finding's consequence
+            info.class = "history_through_finding_F10(not judged)".into();
+            return (v, info);
+        }
         for o in d.deliver(b) {
             if o.tip_after.1 != o.tip_before.1 && o.tip_before.1 != [0; 32] {
                 if let Some(nb) = table.by_hash.get(&o.tip_after.1) {
